@@ -1,10 +1,12 @@
 PROP = dict(
     id="C01",
-    disabled=True,
     engines=["c01"],
     go_tags=["c01"],
+    gen_files={"MM/Gen/C01.lean": "c01"},
     lean_modules=["MM.Props.C01"],
     theorems=[
+        "MM.C01.C01_tie_constants",
+        "MM.C01.C01_tie_decrypt_region",
         "MM.C01.C01_reject_no_change",
         "MM.C01.C01_reject_no_change_step",
         "MM.C01.C01_accept_at_initiator",
@@ -20,14 +22,17 @@ PROP = dict(
     chunk=6000,
     rule="cases = two real SessionKeys (one fixed secret, opposite roles) with preset counters (fresh / near 2^64 / random / 2^63) x 8-40 ops: "
          "enc at either end, delivery of any pooled ciphertext to either end unmodified (reorder/duplicate/reflect) or mutated "
-         "(body bit flip, header counter incl. recv, recv+1, 2^63, 2^64-2, 2^64-1, header prefix, truncation 0..33, extension), raw forged frames; "
+         "(body bit flip, header counter incl. recv, recv+1, 2^63, 2^64-2, 2^64-1, header prefix, truncation 0..33, extension), raw forged frames, "
+         "G goroutines delivering one ciphertext concurrently; payload sizes 0 (28 bytes on the wire), 4, 16 KiB +-1, 64 KiB; bursts of 70-270 messages in flight delivered "
+         "with stride 67; long cases of 150-300 ops; counter presets around 2^32, 2^63, 2^64; "
          "each op is run on the real code and on the Lean model, outputs = accept/reject + all four counters after the op; "
          "non-trivial = deliveries and exhausted encrypts (plain successful encrypts are not counted)",
     nontrivial=lambda op, out: not (op.startswith("enc") and out.startswith("ok")) and not op.startswith("reset"),
     trusted_base=[
         "ChaCha20-Poly1305 as an ideal AEAD (Open succeeds iff the body was sealed under the header nonce; the adversary cannot create sealed bodies) — "
         "hypothesis `admissible` of the trace theorems, not proved",
-        "sync.Mutex: Encrypt's counter section and the whole of Decrypt are atomic (the model is sequential per call)",
+        "sync.Mutex: Encrypt's counter section and the whole of Decrypt are atomic (the model is sequential per call); that the window test, Open and the "
+        "recvNonce update share one Lock..Unlock region is a regenerated go/ast fact (C01_tie_decrypt_region), mutual exclusion itself is trusted",
         "the engine's accessor (harness/exports/internal__crypto/c01.go) to preset/read sendNonce and recvNonce",
     ],
     assumptions=[
